@@ -47,6 +47,7 @@ class Path:
         self.forks = []
         self.sink = FactSink()
         self.pc = []
+        self.pc_raw = []      # unsimplified branch conditions (term relevance only)
         self.solver = z3.Solver()
         self.solver.set("timeout", FEAS_TIMEOUT_MS)
         self._n_facts_added = 0
@@ -59,6 +60,7 @@ class Path:
         self._prov_cache = {}
         self.inputs = []      # registered symbolic inputs (for model extraction)
         self.trace = []       # ghost events
+        self.ghosts = {}      # ghost state of contracts (fold-sums ...)
         self.assumptions_used = set()
 
     # ------------------------------------------------------------------ solver sync
@@ -101,12 +103,13 @@ class Path:
         if isinstance(cond, bool):
             return cond
         key = cond.get_id()
-        if key in self._prov_cache:
-            return self._prov_cache[key]
+        hit = self._prov_cache.get(key)
+        if hit is not None and hit[0].eq(cond):
+            return True
         r = self._check(z3.Not(cond), FEAS_TIMEOUT_MS)
         res = r == z3.unsat
         if res:
-            self._prov_cache[key] = True
+            self._prov_cache[key] = (cond, True)  # owns the key (AST ids are reused after GC)
         return res
 
     # ------------------------------------------------------------------ decisions
@@ -130,6 +133,8 @@ class Path:
         c = simplify_scalar(cond)
         if isinstance(c, bool):
             return c
+        if isinstance(cond, z3.ExprRef):
+            self.pc_raw.append(cond)
         if self.pos < len(self.decisions):
             d = self.decisions[self.pos]
             self.pos += 1
@@ -177,8 +182,11 @@ class Path:
             self.obligations.append(ob)
             return ob
         self._sync()
-        neg = z3.And(zbool(hyp), z3.Not(zbool(goal_s)))
-        aux = list(self.sink.aux)
+        # the solver gets the goal as built (not z3.simplify'd): facts and quantifier
+        # instances are built by the same constructors, so equal terms stay syntactically
+        # equal, which spares the solver a nonlinear normalisation it often cannot do
+        neg = z3.And(zbool(hyp), z3.Not(zbool(goal)))
+        aux = self.sink.relevant_aux([neg] + [x for x in (goal, hyp) if isinstance(x, z3.ExprRef)] + [p_ for p_ in self.pc + self.pc_raw if isinstance(p_, z3.ExprRef)])
         if self.degraded[0]:
             # an obligation of this function has already failed with a counter-model:
             # remaining ones get a short budget (they are reported as unknown, not proved)
@@ -200,10 +208,29 @@ class Path:
                 ob = Obligation(name, "unknown", dt, "z3", detail="short budget after an earlier failed obligation", level=level)
             self.obligations.append(ob)
             return ob
+        # stage 0: nonlinear products/quotients abstracted to uninterpreted functions --
+        # decides the many obligations whose argument is structural, without letting the
+        # nonlinear core wander (unsat of the abstraction implies unsat of the original)
+        from .solver import check_abstracted
+
+        t1 = time.time()
+        try:
+            r0 = check_abstracted(list(self.solver.assertions()) + [neg], timeout_ms=4000)
+            if r0 != z3.unsat and aux:
+                r0 = check_abstracted(list(self.solver.assertions()) + list(aux) + [neg], timeout_ms=4000)
+                self.n_queries += 1
+        except Exception:
+            r0 = z3.unknown
+        self.solver_seconds += time.time() - t1
+        self.n_queries += 1
+        if r0 == z3.unsat:
+            ob = Obligation(name, "proved", time.time() - t0, "z3-abs", level=level)
+            self.obligations.append(ob)
+            return ob
         # fresh (non-incremental) solver: z3's incremental core is markedly weaker on
         # quantified + nonlinear queries (observed: unknown vs unsat in 1 s)
         s1 = z3.Solver()
-        s1.set("timeout", self.prove_timeout_ms if not aux else min(self.prove_timeout_ms, 8000))
+        s1.set("timeout", self.prove_timeout_ms if not aux else min(self.prove_timeout_ms, 5000))
         for a in self.solver.assertions():
             s1.add(a)
         s1.add(neg)
@@ -225,6 +252,24 @@ class Path:
             s2.add(neg)
             t1 = time.time()
             r = s2.check()
+            if r == z3.unknown:
+                # portfolio: z3's verdict on nonlinear queries is sensitive to internal
+                # ordering; retry with other seeds / arithmetic cores before giving up
+                for seed, arith in ((7, 2), (13, 6)):
+                    s3 = z3.Solver()
+                    s3.set("timeout", max(2000, self.prove_timeout_ms // 3))
+                    s3.set("random_seed", seed)
+                    z3.set_param("smt.arith.solver", arith)
+                    try:
+                        for a_ in s2.assertions():
+                            s3.add(a_)
+                        r3 = s3.check()
+                    finally:
+                        z3.set_param("smt.arith.solver", 6)
+                    self.n_queries += 1
+                    if r3 != z3.unknown:
+                        r, s2 = r3, s3
+                        break
             self.solver_seconds += time.time() - t1
             self.n_queries += 1
             backend = "z3+aux"
@@ -242,6 +287,43 @@ class Path:
         self.obligations.append(ob)
         return ob
 
+    def prove_isolated(self, name, goal, level="helper"):
+        """Discharge a closed, path-independent lemma in a clean solver (no path facts)."""
+        t0 = time.time()
+        goal_s = simplify_scalar(goal) if not isinstance(goal, bool) else goal
+        if goal_s is True:
+            ob = Obligation(name, "proved", 0.0, "syntactic", level=level)
+            self.obligations.append(ob)
+            return ob
+        neg = z3.Not(zbool(goal_s))
+        aux = self.sink.relevant_aux([neg] + ([goal] if isinstance(goal, z3.ExprRef) else []))
+        r = z3.unknown
+        backend = "z3"
+        for seed, arith in ((0, 6), (7, 2), (13, 6)):
+            s1 = z3.Solver()
+            s1.set("timeout", self.prove_timeout_ms)
+            s1.set("random_seed", seed)
+            for a_ in aux:
+                s1.add(a_)
+            s1.add(neg)
+            r = s1.check()
+            self.n_queries += 1
+            if r != z3.unknown:
+                break
+        dt = time.time() - t0
+        self.solver_seconds += dt
+        if r == z3.unsat:
+            ob = Obligation(name, "proved", dt, backend, level=level)
+        elif r == z3.sat:
+            ob = Obligation(name, "failed", dt, backend, model=None, level=level, detail="generic lemma is not valid: " + str(s1.model())[:300])
+        else:
+            from .solver import cvc5_check
+
+            res, detail = cvc5_check(s1, timeout_s=20)
+            ob = Obligation(name, "proved" if res == "unsat" else ("failed" if res == "sat" else "unknown"), time.time() - t0, "cvc5", level=level, detail=detail)
+        self.obligations.append(ob)
+        return ob
+
     def _fallback(self, name, neg, dt, level, aux=()):
         from .solver import cvc5_check
 
@@ -252,7 +334,7 @@ class Path:
         for a in aux:
             s2.add(a)
         s2.add(neg)
-        res, detail = cvc5_check(s2, timeout_s=20)
+        res, detail = cvc5_check(s2, timeout_s=max(5, self.prove_timeout_ms // 2000))
         dt2 = time.time() - t0
         self.solver_seconds += dt2
         if res == "unsat":
@@ -262,12 +344,24 @@ class Path:
         return Obligation(name, "unknown", dt + dt2, "z3+cvc5", detail=detail, level=level)
 
     def canary(self, name):
-        """The assumptions on this path must be satisfiable (vacuity guard)."""
+        """Vacuity guard: the assumptions on this path must not be refutable (the obligation
+        `False` must not be provable).  Short budget: contradictions that matter are found
+        by unit propagation / E-matching quickly; `unknown` counts as satisfiable."""
         self._sync()
-        self.solver.set("timeout", FEAS_TIMEOUT_MS * 3)
+        self.solver.set("timeout", 1500)
         r = self.solver.check()
         self.n_queries += 1
-        return r != z3.unsat
+        if r == z3.unsat:
+            return False
+        if r == z3.unknown:
+            from .solver import check_abstracted
+
+            try:
+                if check_abstracted(list(self.solver.assertions()), timeout_ms=1500) == z3.unsat:
+                    return False
+            except Exception:
+                pass
+        return True
 
     def enter(self):
         ctx.push(self)
